@@ -297,7 +297,9 @@ func (srv *Server) init() {
 		srv.Handler = DefaultServeMux
 	}
 
-	srv.udpPool.New = makeUDPBuffer(srv.UDPSize)
+	// A pool of its own for every start: buffers of an earlier run were
+	// made for the UDPSize of that run.
+	srv.udpPool = sync.Pool{New: makeUDPBuffer(srv.UDPSize)}
 }
 
 func unlockOnce(l sync.Locker) func() {
